@@ -2,7 +2,7 @@
 from common import *
 
 RULE = ("literals drawn from the class the unchanged code preserves — letters, digits, runs of 1-4 spaces, _ . : ! ? @ $ % & * + - / "
-        "< > [ ] { } | ~ ; and doubled quotes '' (never '--', '/*', '*/', comma, parentheses, '=', backslash, non-ASCII: those are "
+        "< > [ ] { } | ~ ; # \" the line-comment marker -- (also after an unpaired \") and doubled quotes '' (never '/*', '*/', comma, parentheses, '=', backslash, non-ASCII: those are "
         "the known-finding mechanisms D7) — placed as column DEFAULT, column COMMENT, operand of an inline CHECK, member of a "
         "CHECK ... IN list, column ENUM value (every position of the list), CREATE TYPE ... AS ENUM value, table COMMENT= option and "
         "LOCATION; purely numeric defaults of 1-30 digits incl. leading zeros. expected: the value reported equals the literal as "
@@ -14,7 +14,7 @@ PARTIAL = ["fidelity holds for the safe literal class only; the full statement o
            "the integer itself for all integers, quoted pieces are concatenated verbatim by p_string"]
 ASSUMES = []
 
-SAFE = "abcdefghijklmnopqrstuvwxyzABCDEFGHIJKLMNOPQRSTUVWXYZ0123456789_.:!?@$%&*+/<>[]{}|~;"
+SAFE = "abcdefghijklmnopqrstuvwxyzABCDEFGHIJKLMNOPQRSTUVWXYZ0123456789_.:!?@$%&*+/<>[]{}|~;\"#"
 
 
 def lit(rng, allow_qq=True):
@@ -27,7 +27,9 @@ def lit(rng, allow_qq=True):
         elif k < 0.25 and allow_qq and out:
             out += "''"
         elif k < 0.3:
-            out += "-" if not out.endswith("-") else "x"
+            out += "-"
+        elif k < 0.36:
+            out += rng.choice(["--", " -- ", '"', '" -- ', "#", " # "])
         else:
             out += rng.choice(SAFE)
     out = out.strip().replace("/*", "/ *").replace("*/", "* /")
